@@ -200,7 +200,24 @@ let emit_history oc ~stream (vals : v array) (steps : step list) =
       (* the known class: dot access on a typed map while the code has no branch for it (the model follows the
          translator flag, so the class is empty once getAttribute hands typed maps to getItem) *)
       Ob (if attr_typed_map_dot acc mvals.(s.vi) && enc a <> enc spec then base @ [ "cls", JS "typed-map-dot" ] else base)) steps answers in
-  emit oc (Ob [ "stream", JS stream; "values", JL (Array.to_list (Array.map jv vals)); "steps", JL js ])
+  (* number of cache entries after the history, when it is determined: no eviction happens as long as the
+     distinct (struct type, name) pairs looked up by dot do not exceed maxSize; then the cache holds exactly them *)
+  let seen = Hashtbl.create 64 in
+  List.iter (fun s ->
+      if s.dot then
+        match vals.(s.vi) with
+        | VSt (t, _) | VPtr (VSt (t, _)) ->
+            let bf = Buffer.create 64 in json_to bf (jt t); Hashtbl.replace seen (Buffer.contents bf ^ "|" ^ s.name) ()
+        | _ -> ()) steps;
+  let distinct = Hashtbl.length seen in
+  let cache_len =
+    if distinct <= int_of_z attr_max_size then begin
+      let n = int_of_nat (attr_cache_len (attr_run attr_oracle_front hist attr_cache_empty)) in
+      if n <> distinct then (prerr_endline "c20: model cache length differs from the number of distinct keys"; exit 3);
+      n end
+    else -1 in
+  emit oc (Ob [ "stream", JS stream; "values", JL (Array.to_list (Array.map jv vals)); "steps", JL js;
+                "distinct_keys", JI distinct; "cache_len", JI cache_len ])
 
 let shuffle r (a : 'a array) =
   for i = Array.length a - 1 downto 1 do
